@@ -111,6 +111,13 @@ fn main() {
         std::fs::write(arg(&args, "--out").expect("--out"), serde_json::to_string_pretty(&out).unwrap()).expect("write result");
         std::process::exit(if vios.is_empty() { 0 } else { 1 });
     }
+    if cmd == "cycle" {
+        let t0 = std::time::Instant::now();
+        let (vios, st) = hx::cycle::run_cycle();
+        let out = serde_json::json!({"config": config_string(), "violations": vios, "stats": st, "wall_s": t0.elapsed().as_secs_f64()});
+        std::fs::write(arg(&args, "--out").expect("--out"), serde_json::to_string_pretty(&out).unwrap()).expect("write result");
+        std::process::exit(if vios.is_empty() { 0 } else { 1 });
+    }
     let sc_path = arg(&args, "--scenario").expect("--scenario");
     let sc: Scenario = serde_json::from_str(&std::fs::read_to_string(&sc_path).expect("read scenario")).expect("scenario json");
     let known = load_known(arg(&args, "--known"));
